@@ -176,6 +176,12 @@ def check_history(c):
     kw = kwargs_of(c)
     obj = guard(Skein, c["Nb"], c["No"], **kw)
     for i, (M, L) in enumerate(c["msgs"]):
+        if L == "update":
+            attempt(obj.update, M)        # a bare UBI step on the object's chaining value: not judged, the calls after it are
+            continue
+        if L is not None and L > 8 * len(M):
+            attempt(obj, M, bitlen=L)     # over-long bit length: refused or not, only the calls after it are judged
+            continue
         got = guard(obj, M) if L is None else guard(obj, M, bitlen=L)
         exp = R.skein(c["Nb"], c["No"], M, bitlen=L, **kw)
         if got != exp:
@@ -184,15 +190,18 @@ def check_history(c):
 
 def history_strategy(tier):
     def build(Nb, No, key, tree, msgs):
-        c = {"Nb": Nb, "No": No, "msgs": tuple((M, None if lm == 0 or not M or tree else 8 * len(M) - lm) for M, lm in msgs)}
+        c = {"Nb": Nb, "No": No, "msgs": tuple((M, "update" if lm == 8 else 8 * len(M) + 3 if lm == 9 else None if lm == 0 or not M or tree else 8 * len(M) - lm)
+                                               for M, lm in msgs)}
         if key is not None:
             c["key"] = key
         if tree:
             c.update({"Yl": 1, "Yf": 1, "Ym": 2})
-            c["msgs"] = tuple((M or b"\\x00", None) for M, _ in msgs)
+            c["msgs"] = tuple((M or b"\\x00", "update" if lm == 8 else 8 * len(M) + 3 if lm == 9 and M else None) for M, lm in msgs)
+        if c["msgs"][-1][1] is not None and (c["msgs"][-1][1] == "update" or c["msgs"][-1][1] > 8 * len(c["msgs"][-1][0])):
+            c["msgs"] += ((b"after", None),)
         return c
     return st.builds(build, st.sampled_from([256, 512, 1024]), st.sampled_from([8, 256, 512]), gen.pick((2, st.none()), (1, gen.blob(7))), st.booleans(),
-                     st.lists(st.tuples(gen.blob_of(gen.uint(0, 150)), gen.uint(0, 7)), min_size=2, max_size=4))
+                     st.lists(st.tuples(gen.blob_of(gen.uint(0, 150)), gen.uint(0, 9)), min_size=2, max_size=4))
 
 
 FACETS = [
@@ -212,7 +221,8 @@ FACETS = [
           rule="UBI(Threefish, G, Tweak(Position=p, Type=t))(M[,bitlen]) with p just below 2^64 (carry into the second tweak word), uniformly large, and "
                "just below 2^96 where p + |M| >= 2^96 must be refused"),
     Facet("reused-object", check_history, strategy=history_strategy, budget={"quick": 1000, "thorough": 10000}, shards={"quick": 16, "thorough": 32},
-          nontrivial=lambda c: True, classify=lambda c: ("Nb=%d" % c["Nb"], "tree" if c.get("Ym") else "flat"),
+          nontrivial=lambda c: True, classify=lambda c: ("Nb=%d" % c["Nb"], "tree" if c.get("Ym") else "flat",
+                                                        "has unjudged call" if any(L == "update" or (L is not None and L > 8 * len(M)) for M, L in c["msgs"]) else "all calls valid"),
           rule="2..4 messages hashed one after the other by ONE Skein object (flat and tree)"),
 ]
 WEIGHT = {"hash-length-sweep": 6, "hash-mac-random": 6, "tree": 8}
